@@ -480,3 +480,34 @@ func checkCleanMarkCallers(c *Ctx, p *Prog, rule string) {
 	}
 	c.Check(bad == "" && len(callers) > 0, rule, "SetDirty(false):callers", "-", fmt.Sprintf("cells are marked clean only by the painters %v %s", sortedKeys(callers), bad))
 }
+
+// checkUnderlineViews: Style carries the underline twice - as the (deprecated)
+// attribute bit and as ulStyle - and the painters of all backends look at
+// ulStyle only.  A setter that changes one view without the other produces a
+// style whose underline attribute is set but never drawn.
+func checkUnderlineViews(c *Ctx, p *Prog, rule string) {
+	n := 0
+	for _, fn := range p.modFns {
+		if fn.Pkg != p.Tcell || fn.Parent() != nil || recvTypeName(fn) != "tcell.Style" {
+			continue
+		}
+		wholeAttrs := false
+		for _, st := range storesTo(fn, "tcell.Style", "attrs") {
+			if _, isParam := st.Val.(*ssa.Parameter); isParam {
+				wholeAttrs = true
+			}
+		}
+		setsUl := len(storesTo(fn, "tcell.Style", "ulStyle")) > 0
+		setsBit := len(storesTo(fn, "tcell.Style", "attrs")) > 0
+		if wholeAttrs {
+			n++
+			c.Check(setsUl, rule, "Style."+fn.Name()+":attrs-and-ulStyle", p.pos(fn.Pos()), "replaces the attribute mask as a whole and brings ulStyle in line with its underline bit")
+		} else if setsUl {
+			n++
+			c.Check(setsBit, rule, "Style."+fn.Name()+":ulStyle-and-attrs", p.pos(fn.Pos()), "sets ulStyle and the underline bit together")
+		}
+	}
+	if n == 0 {
+		c.Undecided(rule, "Style:underline-setters", "-", "no Style method writes attrs or ulStyle")
+	}
+}
